@@ -5,7 +5,7 @@
 (*                                                                         *)
 (* A Difficulty is a record of optionals.  Setter values are value classes *)
 (* with the concrete number chosen by the harness:                         *)
-(*   clock:  "below" "min" "in" "max" "above"   (0.001 0.01 1.3 100 5000)  *)
+(*   clock:  "below" "min" "one" "in" "max" "above" (0.001 0.01 1 1.3 100 5000) *)
 (*   attr :  "lo" "min" "in" "max" "hi" x with_mods  (-25 -20 6.5 20 25)   *)
 (* Clamp maps below/lo -> min and above/hi -> max: what inspect() shows.   *)
 (***************************************************************************)
